@@ -17,6 +17,7 @@
 -/
 import BioCantor.Proofs.CacheLru
 import BioCantor.Proofs.CacheState
+import BioCantor.Proofs.CacheOperands
 namespace BioCantor.Props.C10
 open BioCantor BioCantor.Model.Cache BioCantor.Proofs.Cache
 open BioCantor.Spec.Cache (Ev Ans CdsOp recent expectEv expectEvs expectEvsObj okLru okMemo freshAns okCdsHist)
@@ -212,6 +213,142 @@ theorem before_repair_merge_aliased :
     deref h0.1 h0.2 = [(7, [1])] ∧
     deref (mergeShallow h0.1 h0.2 [(7, [2])]).1 h0.2 = [(7, [1, 2])] ∧
     deref (mergeDeep h0.1 h0.2 [(7, [2])]).1 h0.2 = [(7, [1])] := by
+  decide
+
+/-! ## T6 — operations with arguments: a result is built from the operands' constructor data, never from their cells
+
+    The code as it is: `reset_parent`, `reset_strand`, `shift_position`, `extend_*`, the set operations, slicing,
+    liftover, … end in a constructor call (`LazyObj.derive` / `derive2`: all cells of the result start empty). -/
+
+/-- T6: for EVERY question function `g`, operation `op` on constructor data, operand `c`, list `asked` of questions the
+    operand was asked BEFORE the operation and list `qs` of questions put to the RESULT: the result of the operation on
+    the warm operand answers exactly like the result of the operation on a freshly built (cold) operand — namely what a
+    freshly constructed `op c` answers. -/
+theorem derived_answers_independent_of_operand_history {γ ι ν : Type} [DecidableEq ι] (g : γ → ι → ν) (op : γ → γ)
+    (c : γ) (asked qs : List ι) :
+    (LazyObj.reads g ((LazyObj.reads g (LazyObj.fresh c) asked).1.derive op) qs).2
+        = (LazyObj.reads g ((LazyObj.fresh c).derive op) qs).2 ∧
+      (LazyObj.reads g ((LazyObj.fresh c).derive op) qs).2 = qs.map (g (op c)) := by
+  rw [reads_derive, reads_derive, lazy_reads_core]
+  exact ⟨rfl, rfl⟩
+
+/-- … indeed for ANY contents of the operand's cells (reachable by reads or not): two operands with the same constructor
+    data give results that answer alike -/
+theorem derived_answers_independent_of_operand_cells {γ ι ν : Type} [DecidableEq ι] (g : γ → ι → ν) (op : γ → γ)
+    (o₁ o₂ : LazyObj γ ι ν) (hcore : o₁.core = o₂.core) (qs : List ι) :
+    (LazyObj.reads g (o₁.derive op) qs).2 = (LazyObj.reads g (o₂.derive op) qs).2 := by
+  rw [reads_derive, reads_derive, hcore]
+
+/-- T6 for binary operations (`a.union(b)`, `a.intersection(b)`, `a.minus(b)`, `seq.append(other)`, in either operand
+    order): whatever BOTH operands were asked before -/
+theorem derived2_answers_independent_of_operand_history {γ ι ν : Type} [DecidableEq ι] (g : γ → ι → ν)
+    (op : γ → γ → γ) (a b : γ) (askedA askedB qs : List ι) :
+    (LazyObj.reads g (LazyObj.derive2 op (LazyObj.reads g (LazyObj.fresh a) askedA).1
+        (LazyObj.reads g (LazyObj.fresh b) askedB).1) qs).2
+      = (LazyObj.reads g (LazyObj.derive2 op (LazyObj.fresh a) (LazyObj.fresh b)) qs).2 := by
+  rw [reads_derive2, reads_derive2, lazy_reads_core, lazy_reads_core]
+
+/-- the operand is unchanged by whatever it was asked (and an operation as coded does not write to it at all): it keeps
+    its constructor data and goes on answering every question like a freshly built twin -/
+theorem operand_unchanged_by_questions {γ ι ν : Type} [DecidableEq ι] (g : γ → ι → ν) (c : γ) (asked qs : List ι) :
+    (LazyObj.reads g (LazyObj.fresh c) asked).1.core = c ∧
+      (LazyObj.reads g (LazyObj.reads g (LazyObj.fresh c) asked).1 qs).2 = qs.map (g c) := by
+  refine ⟨lazy_reads_core g asked _, ?_⟩
+  have h := lazy_reads (g := g) qs (lazy_reads_sound asked (lazy_fresh_sound g c))
+  rw [h, lazy_reads_core]
+  rfl
+
+/-- instance: `loc.reset_parent(p2).extract_sequence()` gives the bases of `p2` whether or not
+    `loc.extract_sequence()` had been called before (the lazily filled `_sequence` of `SingleInterval`) -/
+theorem reset_parent_extract_sequence_history_independent (c : SICore) (newBases : Option (List Char))
+    (asked : List SIAttr) :
+    (LazyObj.reads siAttr ((LazyObj.reads siAttr (LazyObj.fresh c) asked).1.derive (SICore.resetParent newBases))
+        [.sequence]).2 = [siAttr (c.resetParent newBases) .sequence] :=
+  (derived_answers_independent_of_operand_history siAttr (SICore.resetParent newBases) c asked [.sequence]).1.trans
+    (derived_answers_independent_of_operand_history siAttr (SICore.resetParent newBases) c asked [.sequence]).2
+
+/-- location 1-3:+ on `ACGT`, re-parented onto `TTTT` (same id, other bases) -/
+def hapA : SICore := ⟨1, 3, false, some ['A', 'C', 'G', 'T']⟩
+def hapB : Option (List Char) := some ['T', 'T', 'T', 'T']
+
+/-- the statement is not vacuous: the warm operand really has its `_sequence` cell filled, and the answers are real -/
+example : (LazyObj.reads siAttr (LazyObj.fresh hapA) [.sequence]).1.slot .sequence = some (some ['C', 'G']) := by decide
+example : (LazyObj.reads siAttr ((LazyObj.reads siAttr (LazyObj.fresh hapA) [.sequence]).1.derive
+    (SICore.resetParent hapB)) [.sequence]).2 = [some ['T', 'T']] := by decide
+example : siAttr ⟨1, 3, true, some ['A', 'C', 'G', 'T']⟩ .sequence = some ['C', 'G'] := by decide
+
+/-- what the theorem rests on is that the constructor empties the cells: an operation that carried the operand's cells over
+    to its result (NOT the code) would answer with the OLD parent's bases once the operand had been asked for its sequence,
+    and with the new parent's bases otherwise — an answer that depends on history -/
+theorem carrying_cells_over_would_depend_on_history :
+    (LazyObj.reads siAttr ((LazyObj.fresh hapA).deriveCarry (SICore.resetParent hapB)) [.sequence]).2 = [some ['T', 'T']] ∧
+    (LazyObj.reads siAttr ((LazyObj.reads siAttr (LazyObj.fresh hapA) [.sequence]).1.deriveCarry
+        (SICore.resetParent hapB)) [.sequence]).2 = [some ['C', 'G']] := by
+  decide
+
+/-! ## T7 — `export_qualifiers(parent_qualifiers)`: the argument is an operand (the code as it is: copying merge) -/
+
+/-- T7: `export_qualifiers` as coded (`{key: set(vals) …}`, `update`, then the `.add()` loop) leaves EVERY cell that
+    existed before the call untouched — the interval's own sets, the caller's `parent_qualifiers` sets and anything else. -/
+theorem export_leaves_every_cell_untouched (h : Heap) (own other : Dict) (ids : List (Nat × Nat)) (r : Ref)
+    (hr : r < h.length) : (exportQualifiers h own other ids).1[r]? = h[r]? :=
+  (exportQualifiers_frame h own other ids).1.same r hr
+
+/-- T7: every set the exported dictionary refers to was allocated by the call: the result shares no cell with the
+    argument (nor with the interval's own qualifiers), so neither `.add()` inside the exporter nor a later change of the
+    result can reach the argument, and vice versa -/
+theorem export_result_shares_no_cell_with_argument (h : Heap) (own other : Dict) (ids : List (Nat × Nat))
+    (hother : ∀ ko ∈ other, ko.2 < h.length) :
+    ∀ kr ∈ (exportQualifiers h own other ids).2, ∀ ko ∈ other, kr.2 ≠ ko.2 := by
+  intro kr hkr ko hko e
+  have h1 := (exportQualifiers_frame h own other ids).2 kr hkr
+  have h2 := hother ko hko
+  rw [e] at h1
+  exact Nat.lt_irrefl _ (Nat.lt_of_lt_of_le h2 h1)
+
+/-- hence the argument reads the same before and after the export … -/
+theorem export_argument_unchanged (h : Heap) (own other : Dict) (ids : List (Nat × Nat))
+    (hother : ∀ ko ∈ other, ko.2 < h.length) :
+    deref (exportQualifiers h own other ids).1 other = deref h other :=
+  deref_frame (exportQualifiers_frame h own other ids).1 other hother
+
+/-- … and so do the interval's own qualifiers -/
+theorem export_own_qualifiers_unchanged (h : Heap) (own other : Dict) (ids : List (Nat × Nat))
+    (hown : ∀ kr ∈ own, kr.2 < h.length) :
+    deref (exportQualifiers h own other ids).1 own = deref h own :=
+  deref_frame (exportQualifiers_frame h own other ids).1 own hown
+
+/-- `GeneInterval.to_gff`: ONE gene-level dictionary `pq` is handed to every child's export.  Any dictionary `d` that
+    exists when a group of children starts exporting — the gene-level dictionary itself, or the dictionary a GFF3 row
+    produced EARLIER holds — reads the same after those children have exported: a row printed after the generator is
+    exhausted shows what it shows when printed at once, and a later transcript never sees an earlier one's identifiers. -/
+theorem rendered_late_equals_rendered_eagerly (h : Heap) (pq d : Dict) (children : List (Dict × List (Nat × Nat)))
+    (hd : ∀ kr ∈ d, kr.2 < h.length) :
+    deref (exportChildren h pq children) d = deref h d :=
+  deref_frame (exportChildren_frame children h pq) d hd
+
+/-- the hypotheses are what allocation establishes -/
+example : ∀ kr ∈ (alloc [] [(9, [1]), (8, [4, 5])]).2, kr.2 < (alloc [] [(9, [1]), (8, [4, 5])]).1.length := by decide
+
+/-- the merge still merges and the identifiers are still added: gene-level `{9: {1}, 8: {4}}`, transcript's own
+    `{7: {3}}`, identifiers `9 ↦ 2` (a key the parent has and the child does not) and `6 ↦ 5` (a key nobody has) -/
+example :
+    let p := alloc [] [(9, [1]), (8, [4])]
+    let o := alloc p.1 [(7, [3])]
+    let r := exportQualifiers o.1 o.2 p.2 [(9, 2), (6, 5)]
+    deref r.1 r.2 = [(7, [3]), (9, [1, 2]), (8, [4]), (6, [5])] ∧ deref r.1 p.2 = [(9, [1]), (8, [4])] ∧
+      deref r.1 o.2 = [(7, [3])] := by
+  decide
+
+/-- what T7 rests on is the copy: a merge that ADOPTED the argument's sets for keys the child lacks (NOT the code) would
+    let the child's `.add()` write into the caller's dictionary — the gene-level `{9: {1}}` reads `{9: {1, 2}}` after the
+    first child and `{9: {1, 2, 3}}` after the second, so the gene row printed late differs from the gene row printed at
+    once and the second transcript carries the first one's identifier; as coded it keeps reading `{9: {1}}` -/
+theorem adopting_the_argument_sets_would_change_the_argument :
+    let p := alloc [] [(9, [1])]
+    deref (exportChildrenAdopt p.1 p.2 [([], [(9, 2)])]) p.2 = [(9, [1, 2])] ∧
+    deref (exportChildrenAdopt p.1 p.2 [([], [(9, 2)]), ([], [(9, 3)])]) p.2 = [(9, [1, 2, 3])] ∧
+    deref (exportChildren p.1 p.2 [([], [(9, 2)]), ([], [(9, 3)])]) p.2 = [(9, [1])] := by
   decide
 
 /-! ## non-vacuity: evictions really happen in the histories the theorems range over -/
